@@ -62,7 +62,9 @@ Record case := {
   c_frags : list (pystr * pystr * (list (Z * attrs) * list (Z * Z * attrs)));
                                         (* fragment name, fragment text, the graph read_fragments built for it
                                            (nodes with element / chiral / ez_isomer_class / bonding, edges with order) *)
-  c_str : option pystr                  (* the whole CGsmiles string, for hydrogen-free inputs only (EzStrings.resolve_string) *)
+  c_str : option pystr;                 (* the whole CGsmiles string, for hydrogen-free inputs only (EzStrings.resolve_string) *)
+  c_side : list (Z * Z * bool)          (* marked (ligand id, anchor id): the ligand is on the upper side of the double bond's
+                                           axis (the generator's ground truth; cis = same side) *)
 }.
 
 (** ---- the models FROM STRINGS (EzStrings) against the implementation *)
@@ -107,11 +109,51 @@ Definition corr_ok_step (c : case) : bool :=
       end
   end.
 
-Definition corr_ok (c : case) : bool := corr_ok_step c && forallb frag_ok (c_frags c) && string_ok c.
-(** which part disagrees (diagnosis only): 1 annotation step, 2 a fragment template, 3 the model from the string *)
+(** ---- the generator's ground truth: marks in the keys of the recorded molecule (inverse of the identification; the
+    written-before flag defaults to the key order, i.e. ligand and anchor in one fragment) *)
+Definition key_of (m : list (Z * Z)) (i : Z) : option Z :=
+  match find (fun kv => Z.eqb (snd kv) i) m with Some kv => Some (fst kv) | None => None end.
+Definition marks_of (c : case) : list mark :=
+  flat_map (fun e => let '(l, a, u) := e in
+              match key_of (c_ident c) l, key_of (c_ident c) a with
+              | Some kl, Some ka =>
+                  let wb := match find (fun w => let '(x, y, _, _) := w in Z.eqb x l && Z.eqb y a) (c_wb c) with
+                            | Some (_, _, w, _) => w
+                            | None => kl <? ka
+                            end in
+                  [{| m_lig := kl; m_anc := ka; m_up := u; m_wb := wb |}]
+              | _, _ => []
+              end) (c_side c).
+(** the `unambiguous` filter of the generator as a predicate on what the implementation stored *)
+Definition case_marks_ok (c : case) : bool :=
+  match c_before c with Some g => marks_ok g (marks_of c) | None => false end.
+(** EzProofs.marks_ok_predicts read on the implementation's RETURNED molecule: whenever the marks are as intended, every
+    pair the model forms is stored with the class predicted from the ground truth and the key/written order - inside
+    and outside the defect classes *)
+Definition predict_ok (c : case) : bool :=
+  match c_before c, c_ret c with
+  | Some g, Some r =>
+      let ms := marks_of c in
+      if c_judged c && marks_ok g ms then
+        match all_pairs g (ez_class_dict g) with
+        | Ok ps => forallb (fun p => match sub_mark ms (fst p), sub_mark ms (snd p) with
+                                     | Some mx, Some my =>
+                                         let x := fst p in let y := snd p in
+                                         existsb (pyval_eqb (ez_tuple (s_lig x) (s_anc x) (s_anc y) (s_lig y) (class_val (predicted_cis mx my))))
+                                                 (ez_list r (s_lig x))
+                                     | _, _ => false
+                                     end) ps
+        | Err _ => false
+        end
+      else true
+  | _, _ => true
+  end.
+Definition corr_ok (c : case) : bool := corr_ok_step c && forallb frag_ok (c_frags c) && string_ok c && predict_ok c.
+(** which part disagrees (diagnosis only): 1 annotation step, 2 a fragment template, 3 the model from the string,
+    4 the class predicted from the ground truth *)
 Definition corr_diag (c : case) : nat :=
   if negb (corr_ok_step c) then 1%nat else if negb (forallb frag_ok (c_frags c)) then 2%nat
-  else if negb (string_ok c) then 3%nat else 0%nat.
+  else if negb (string_ok c) then 3%nat else if negb (predict_ok c) then 4%nat else 0%nat.
 
 (** ------------------------------------------------------------------ the property's clauses *)
 Fixpoint zlookup (k : Z) (m : list (Z * Z)) : option Z :=
